@@ -11,7 +11,7 @@
 #include "../jrecvis.h"
 #include "../recvis.h"
 using namespace jsoncons;
-struct dres { int ec; int depth; int more; unsigned long stack; unsigned nev; unsigned kind0; unsigned long long len0; unsigned long consumed; int ec2; int depth2; unsigned long stack2; unsigned nev2; };
+struct dres { int ec; int depth; int more; unsigned long stack; unsigned nev; unsigned kind0; unsigned long long len0; unsigned long consumed; int ec2; int depth2; unsigned long stack2; unsigned nev2; unsigned long ns1; unsigned long ns2; };
 // ---- JSON: begin_object / begin_array (+ end_*)
 KFN void k_dlim_json(unsigned which, int d, int m, int close, dres* r) {
     RAWOBJ(json_parser, pp); json_parser& p = *pp;
@@ -26,16 +26,21 @@ KFN void k_dlim_json(unsigned which, int d, int m, int close, dres* r) {
 }
 // ---- CBOR: begin_array / begin_classical_array_storage / begin_object; s[0] is the item's initial byte
 using cborp_t = cbor::basic_cbor_parser<bytes_source>;
-KFN void k_dlim_cbor(unsigned which, int d, int m, const unsigned char* s, unsigned long n, int close, dres* r) {
+extern "C" void k_dlim_cbor_ns(unsigned which, int d, int m, int ns, const unsigned char* s, unsigned long n, int close, dres* r);
+KFN void k_dlim_cbor(unsigned which, int d, int m, const unsigned char* s, unsigned long n, int close, dres* r) { k_dlim_cbor_ns(which, d, m, 0, s, n, close, r); }
+// ns: a stringref-namespace tag (256) is pending on the container being opened
+KFN void k_dlim_cbor_ns(unsigned which, int d, int m, int ns, const unsigned char* s, unsigned long n, int close, dres* r) {
     RAWOBJ(cborp_t, p);
     new (&p->source_) bytes_source(jsoncons::span<const uint8_t>(s, n));
     p->more_ = true; p->max_nesting_depth_ = m; p->nesting_depth_ = d;
     new (&p->state_stack_) std::vector<cbor::parse_state>(); p->state_stack_.reserve(4); p->state_stack_.emplace_back(cbor::parse_mode::root, 0);
+    new (&p->stringref_map_stack_) decltype(p->stringref_map_stack_)(); p->stringref_map_stack_.reserve(2);
+    if (ns) p->other_tags_[cborp_t::stringref_namespace_tag] = true;
     rec_ev evs[2]; recvis v(evs, 2); std::error_code ec;
     const uint8_t info = (uint8_t)(s[0] & 0x1f);
     if (which == 0) p->begin_array(v, info, ec); else if (which == 1) p->begin_classical_array_storage(info, ec); else p->begin_object(v, info, ec);
-    r->ec = ec ? ec.value() : 0; r->depth = p->nesting_depth_; r->more = p->more_; r->stack = p->state_stack_.size(); r->nev = v.n; r->kind0 = v.n ? evs[0].kind : 0; r->len0 = v.n ? evs[0].bits : 0; r->consumed = p->source_.position();
-    if (close && !ec) { std::error_code ec2; if (which == 0) p->end_array(v, ec2); else if (which == 1) p->end_classical_array_storage(ec2); else p->end_object(v, ec2); r->ec2 = ec2 ? ec2.value() : 0; r->depth2 = p->nesting_depth_; r->stack2 = p->state_stack_.size(); r->nev2 = v.n; }
+    r->ec = ec ? ec.value() : 0; r->depth = p->nesting_depth_; r->more = p->more_; r->stack = p->state_stack_.size(); r->nev = v.n; r->kind0 = v.n ? evs[0].kind : 0; r->len0 = v.n ? evs[0].bits : 0; r->consumed = p->source_.position(); r->ns1 = p->stringref_map_stack_.size();
+    if (close && !ec) { std::error_code ec2; if (which == 0) p->end_array(v, ec2); else if (which == 1) p->end_classical_array_storage(ec2); else p->end_object(v, ec2); r->ec2 = ec2 ? ec2.value() : 0; r->depth2 = p->nesting_depth_; r->stack2 = p->state_stack_.size(); r->nev2 = v.n; r->ns2 = p->stringref_map_stack_.size(); }
 }
 // ---- MessagePack: begin_array / begin_object(type); s = bytes following the type byte
 using msgp_t = msgpack::basic_msgpack_parser<bytes_source>;
@@ -73,6 +78,18 @@ KFN void k_dlim_bson(unsigned which, unsigned d, int m, const unsigned char* s, 
     jev evs[2]; jrec v(evs, 2); std::error_code ec;
     if (which == 0) p->begin_document(v, ec); else p->begin_array(v, ec);
     r->ec = ec ? ec.value() : 0; r->depth = (int)p->state_stack_.size() - 1; r->more = p->more_; r->stack = p->state_stack_.size(); r->nev = v.n; r->kind0 = v.n ? evs[0].kind : 0; r->consumed = p->source_.position();
+}
+// BSON length accounting at the end of a document / array: the bytes consumed (pos) must equal the declared length, then the parent's pos grows by them
+struct bres { int ec; unsigned long stack; unsigned long parent_pos; int more; };
+KFN void k_bson_end(unsigned which, unsigned long length, unsigned long pos, unsigned long parent_pos, bres* r) {
+    RAWOBJ(bsonp_t, p); p->more_ = true; p->max_nesting_depth_ = 1024;
+    new (&p->state_stack_) std::vector<bson::parse_state>(); p->state_stack_.reserve(4);
+    p->state_stack_.emplace_back(bson::parse_mode::root, 0, 0);
+    p->state_stack_.emplace_back(bson::parse_mode::document, 1000, parent_pos);
+    p->state_stack_.emplace_back(which ? bson::parse_mode::array : bson::parse_mode::document, length, pos);
+    jev evs[2]; jrec v(evs, 2); std::error_code ec;
+    if (which) p->end_array(v, ec); else p->end_document(v, ec);
+    r->ec = ec ? ec.value() : 0; r->stack = p->state_stack_.size(); r->parent_pos = p->state_stack_.size() >= 2 ? p->state_stack_[1].pos : 0; r->more = p->more_;
 }
 KFN int k_dlim_errc(unsigned fmt, unsigned which) {
     switch (fmt) {
